@@ -169,6 +169,16 @@ def quick_keys():
             ("mx2-1T", "SnS2", "mono-TTF", 0.0)]
     for i, (p, nme, shape, noise) in enumerate(mono):
         keys.append(c04_key(p, nme, shape, noise, i % 3))
+    # every MX2 monolayer once more with three further seeds (the seed decides the atom order, hence which species the
+    # first region is grown from: metal or chalcogen), alternating shape and noise
+    j = 0
+    for proto in ("mx2-2H", "mx2-1T"):
+        for nme, _ in MONOLAYERS[proto]:
+            for sd in (3, 4, 5):
+                k = c04_key(proto, nme, MONO_SHAPES[j % 2], NOISES[(j // 2) % 2], sd)
+                if k not in keys:
+                    keys.append(k)
+                j += 1
     return keys
 
 
@@ -226,17 +236,30 @@ def classify(m, r):
     """('na', reason) when C04 does not apply (that is C02's business), ('ok', info), or ('fail', clauses)"""
     if r.get("timeout"):
         return "fail", ["workflow exceeded the time limit"]
+    if r.get("history_same") is False:
+        return "fail", ["the clusters of the workflow depend on what the same SBC object clustered before (a translated, re-ordered copy in the same box): "
+                        "reused %s vs fresh %s" % (r.get("history_detail", {}).get("reused"), r.get("history_detail", {}).get("fresh"))]
     if "sbc_error" in r:
         return "na", "get_clusters raised %s (%s)" % (r["sbc_error"]["type"], r["sbc_error"]["where"])
-    if len(r.get("cluster_sizes", [])) != 1 or r["cluster_sizes"][0] != r["n"]:
-        return "na", "get_clusters returned %d cluster(s) %r for %d atoms" % (len(r.get("cluster_sizes", [])), r.get("cluster_sizes", [])[:4], r["n"])
-    c = r["clusters"][0]
+    sizes = r.get("cluster_sizes", [])
+    obs = r.get("clusters") or []
+    if len(sizes) != 1 or sizes[0] != r["n"]:
+        # not exactly one complete cluster (that conclusion is C02's business for bulk and slab members).  The property is
+        # about "a cluster's prototype cell": when one returned cluster holds at least half of the atoms, its cell is judged
+        big = [o for o in obs if 2 * o["n_indices"] >= r["n"]]
+        if not big:
+            return "na", "get_clusters returned %d cluster(s) %r for %d atoms" % (len(sizes), sizes[:4], r["n"])
+        c = max(big, key=lambda o: o["n_indices"])
+        partial = "largest of %d clusters (%d of %d atoms): " % (len(sizes), c["n_indices"], r["n"])
+    else:
+        c = obs[0]
+        partial = ""
     bad = []
     ref = r["reference"]
     if "error" in ref:
         return "fail", ["SymmetryAnalyzer raised on the source crystal's own unit cell: %r" % (ref["error"],)]
     if c["cell"] is None:
-        return "fail", ["Cluster.get_cell() returned None for the single cluster"]
+        return "fail", [partial + "Cluster.get_cell() returned None for the cluster"]
     if not (c["cell_attr_is_none"] and c["get_cell_is_region_cell"] and c.get("get_cell_stable")):
         bad.append("get_cell() is not the region's prototype cell object")
     npbc = sum(bool(b) for b in c["cell"]["pbc"])
@@ -256,7 +279,7 @@ def classify(m, r):
     if a["material_id"] != ref["material_id"]:
         bad.append("material id %s, source crystal %s" % (a["material_id"], ref["material_id"]))
     if bad:
-        return "fail", bad
+        return "fail", [partial + b for b in bad] if partial else bad
     return "ok", {"k": k, "number": a["number"], "n_cell": len(c["cell"]["numbers"]), "builder": (c.get("call") or {}).get("builder")}
 
 
